@@ -1,5 +1,6 @@
 """C01 - per-partition produce order; no loss, no duplication under retries."""
 from props import producer_engine as E
+from props import txn_engine as T
 
 PROP = "C01"
 LEVEL = "exploration"
@@ -7,8 +8,32 @@ RUNS = {"quick": 10000, "thorough": 400000}
 
 
 def gen_plan(seed, index, tier="quick"):
+    if index % 8 == 7:
+        # a transactional producer under retriable faults only (nobody is killed or fenced): the
+        # request-ledger clauses of C01 are judged by the same monitors, the rest by C07
+        plan = T.gen_plan_c07(seed, 10**6 + index, tier)
+        plan["env"] = []
+        r = T.scenario.rng_for(seed, PROP, index, "txnride")
+        nb = plan["cluster"]["brokers"]
+        nparts = plan["cluster"]["topics"]["t0"]["partitions"]
+        if nb >= 2 and r.random() < 0.6:
+            # a Produce request answered late while its partition's leader moves to another
+            # broker: the only way two batches of one partition can be in flight at all
+            k = r.randint(1, 6)
+            plan["faults"] = list(plan["faults"]) + [
+                {"on": {"request": "Produce", "nth": k}, "do": {"delay": r.choice([0.05, 0.2, 0.4])}},
+                {"on": {"request": "Produce", "nth": k},
+                 "do": {"leader_move": ["t0", r.randrange(nparts), r.randint(1, nb)]}}]
+        plan["c01_monitors"] = True
+        plan["prop"] = "C01"
+        plan["index"] = index
+        return plan
     return E.gen_plan(PROP, seed, index, tier)
 
 
 def execute(plan):
+    if plan.get("engine") == "txn":
+        res = T.execute(plan)
+        res["violations"] = [v for v in res.get("violations", []) if v[0] == "C01"]
+        return res
     return E.execute(plan)
